@@ -1048,14 +1048,18 @@ class TemplateModel(object):
         ns = len(spike_ids)
 
         if tf.rows is not None:
-            spike_ids = np.intersect1d(spike_ids, tf.rows)
+            s = np.intersect1d(spike_ids, tf.rows)
             # Relative indices of the spikes in the self.features_spike_ids
             # array, necessary to load features from all_features which only
             # contains the subset of the spikes.
-            rows = _index_of(spike_ids, tf.rows)
+            rows = _index_of(s, tf.rows)
+            # Relative indices of the non-null rows in the output array.
+            rows_out = _index_of(s, spike_ids)
+            template_features = np.empty((ns, n_templates_loc))
+            template_features[:] = np.nan
+            template_features[rows_out, ...] = tf.data[rows]
         else:
-            rows = spike_ids
-        template_features = tf.data[rows]
+            template_features = tf.data[spike_ids]
 
         if tf.cols is not None:
             assert tf.cols.shape[1] == n_templates_loc
